@@ -153,16 +153,56 @@ class CallbackFault:
             return res
 
         transformer_cls._call_userfunc = wrapped
+        self.meta = None
+
+    def install_meta(self, ext_cls):
+        fault = self
+
+        class _Meta:
+            count = 0
+            armed = None
+            orig = ext_cls.set_token_meta_data
+        self.meta = _Meta
+        self.meta_cls = ext_cls
+
+        def wrapped_meta(self_e, token, **kwargs):
+            res = _Meta.orig(self_e, token, **kwargs)
+            k = _Meta.count
+            _Meta.count += 1
+            arm = _Meta.armed
+            if arm is not None and arm[0] == k:
+                _Meta.armed = None
+                fault.fired = True
+                raise make_fault(arm[1])
+            return res
+
+        ext_cls.set_token_meta_data = wrapped_meta
 
     def arm(self, k, when, kind):
         self.count = 0
         self.fired = False
         self.armed = (k, when, kind)
+        if self.meta is not None:
+            self.meta.count = 0
+            self.meta.armed = None
+
+    def arm_meta(self, k, kind):
+        """Second fault site: raise right *after* the k-th call of the extension's set_token_meta_data, i.e.
+        inside a callback, after it recorded an attribute flag and before it created its operand."""
+        self.count = 0
+        self.fired = False
+        self.armed = (-1, "pre", kind)
+        self.meta.count = 0
+        self.meta.armed = (k, kind)
 
     def disarm(self):
         self.armed = None
         n = self.count
         self.count = 0
+        if self.meta is not None:
+            self.meta.armed = None
+            self.nmeta = self.meta.count
+            self.meta.count = 0
         return n
 
     def uninstall(self):
